@@ -12,6 +12,7 @@ was actually consulted; replaying with seed=None and overrides=taken
 reproduces the run exactly.
 """
 import hashlib
+import os
 import struct
 
 _UNIT_BITS = 20
@@ -51,6 +52,25 @@ class Decisions:
         if v:
             self.taken[k] = v
         return v
+
+    def scale(self):
+        """1 in the ordinary configuration space; 3 in half of the runs of the thorough tier (VERIF_TIER=thorough), which
+        widens every size decision (population size, generations, history lengths) - or whenever the replayed decision list
+        says so, so that a replay file does not depend on the tier it is replayed under"""
+        k = "cfg/'scale'"
+        if k in self.ov:
+            on = bool(self.ov[k])
+        elif self._pfx is None or os.environ.get('VERIF_TIER') != 'thorough':
+            on = False
+        else:
+            on = bool(self._raw(k) & 1)
+        if on:
+            self.taken[k] = 1
+        return 3 if on else 1
+
+    def size(self, stream, key, n):
+        """a size decision in [0, n) - [0, 3n) in scaled-up runs"""
+        return self.dec(stream, key, n * self.scale())
 
     def flag(self, stream, key, p):
         """True with probability p (seeded); replay: True iff listed"""
